@@ -417,6 +417,36 @@ def ev_cli(case, ctx):
             return
     if res.get("all") != 2 or res.get("reg") != 1:
         ctx.violation("aegean CLI: %r components without / with --region, expected 2 / 1" % (res,), "cli_count|")
+    # --autoload finds a sibling <image>.mim; a region named explicitly wins over it, and without --region the sibling is used
+    sib = f.replace(".fits", ".mim")
+    fm = os.path.join(d, "c11c_user.mim")       # the sibling name is <image>.mim: the user's region must live elsewhere
+    reg.save(fm)
+    elsewhere = Region(maxdepth=8)
+    elsewhere.add_circles(np.radians(10.0), np.radians(70.0), np.radians(1.0))      # holds no island of this image
+    for sib_reg, sib_name in ((elsewhere, "elsewhere"), (reg, "circle")):
+        sib_reg.save(sib)
+        for name, extra, want in (("autoload_only", ["--autoload"], 0 if sib_name == "elsewhere" else 1),
+                                  ("autoload_and_region", ["--autoload", "--region", fm], 1),
+                                  ("region_and_autoload", ["--region", fm, "--autoload"], 1)):
+            ctx.count("cli")
+            out = os.path.join(d, "c11c_%s.csv" % name)
+            comp = out.replace(".csv", "_comp.csv")
+            if os.path.exists(comp):
+                os.remove(comp)
+            try:
+                cli.main([f, "--forcerms", "0.01", "--forcebkg", "0", "--cores", "1", "--nocov", "--table", out] + extra)
+                got = len(catalogs.load_table(comp)) if os.path.exists(comp) else 0
+            except SystemExit:
+                got = None
+            except Exception as ex:
+                ctx.violation("aegean CLI raised %r (%s, sibling region %s)" % (ex, name, sib_name), "cli_raise|%s,%s" % (name, sib_name))
+                continue
+            if got != want:
+                ctx.violation("aegean %s with a sibling .mim file holding the '%s' region: %r components, expected %d" % (" ".join(extra).replace(fm, "user.mim"), sib_name, got, want),
+                              "cli_autoload|%s,%s" % (name, sib_name))
+    for p_ in (sib, fm):
+        if os.path.exists(p_):
+            os.remove(p_)
 
 
 def evaluate(clause, case, ctx):
